@@ -1,5 +1,473 @@
-/- C01 — property theorems only. -/
+/- C01 — property theorems only.
+
+Every theorem about `run` is stated for an **arbitrary** `OpSpec` (any walk, any arity, any
+error kind) and an arbitrary delegate, which is stronger than quantifying over `opTable`;
+`table_*` theorems then record the facts that are specific to the table the harness matches
+against the live modules. -/
 import OdcGeo.Model.C01
+import OdcGeo.Lemmas.C01
 namespace OdcGeo.C01
+
+variable {S R : Type}
+
+/-! ### `CRS.__eq__` -/
+
+theorem crsEq_refl (a : CrsRec) : crsEq a a = true := crsEq_refl' a
+
+theorem crsEq_symm (a b : CrsRec) : crsEq a b = crsEq b a := crsEq_symm' a b
+
+/-- For well-formed records `CRS.__eq__` decides exactly pyproj equality. -/
+theorem crsEq_iff_sameClass (a b : CrsRec) (h : WF a b) : crsEq a b = true ↔ a.cls = b.cls := by
+  unfold crsEq
+  by_cases h1 : a.objId = b.objId
+  · simp [h1, h.obj h1]
+  · by_cases h2 : a.epsg ≠ 0 ∧ b.epsg ≠ 0
+    · rw [if_neg h1, if_pos h2, decide_eq_true_eq]
+      exact h.epsg h2.1 h2.2
+    · by_cases h4 : a.str = b.str
+      · simp [h1, h2, h4, h.str h4]
+      · simp [h1, h2, h4]
+
+/-- The same CRS in another spelling (EPSG code vs WKT vs PROJJSON …) is accepted. -/
+theorem crsEq_spelling (a b : CrsRec) (h : WF a b) (hc : a.cls = b.cls) : crsEq a b = true :=
+  (crsEq_iff_sameClass a b h).mpr hc
+
+/-- On well-formed records `CRS.__eq__` is transitive (it is not on arbitrary records). -/
+theorem crsEq_trans (a b c : CrsRec) (hab : WF a b) (hbc : WF b c) (hac : WF a c)
+    (h1 : crsEq a b = true) (h2 : crsEq b c = true) : crsEq a c = true :=
+  (crsEq_iff_sameClass a c hac).mpr
+    (((crsEq_iff_sameClass a b hab).mp h1).trans ((crsEq_iff_sameClass b c hbc).mp h2))
+
+/-- Without well-formedness transitivity fails: this is why `WF` is checked on the live CRS pool. -/
+theorem crsEq_not_trans_cex :
+    crsEq ⟨1, 5, 1, 1⟩ ⟨2, 0, 1, 2⟩ = true ∧ crsEq ⟨2, 0, 1, 2⟩ ⟨3, 6, 3, 2⟩ = true ∧
+    crsEq ⟨1, 5, 1, 1⟩ ⟨3, 6, 3, 2⟩ = false := by decide
+
+theorem tagEq_refl (t : Tag) : tagEq t t = true := tagEq_refl' t
+theorem tagEq_symm (a b : Tag) : tagEq a b = tagEq b a := tagEq_symm' a b
+theorem tagNe_symm (a b : Tag) : tagNe a b = tagNe b a := tagNe_symm' a b
+
+/-- "exactly one operand has no CRS" always counts as a mismatch, in both operand orders -/
+theorem tagNe_none_some (c : CrsRec) : tagNe none (some c) = true ∧ tagNe (some c) none = true := by
+  simp [tagNe, tagEq]
+
+theorem tagNe_none_none : tagNe none none = false := by simp [tagNe, tagEq]
+
+/-! ### the three statements of the property, for every walk -/
+
+/-- what leaves the operation on a CRS mismatch -/
+def raisedErr (op : OpSpec) : Err :=
+  match op.walk with
+  | .pixelEach => op.mismatchErr.asValueError
+  | _ => op.mismatchErr
+
+/-- delegates that cannot fail between two CRS checks (only the interleaved walks need it) -/
+def StepsTotal (D : Delegate S R) (op : OpSpec) : Prop :=
+  match op.walk with
+  | .reduce => ∀ acc s, ∃ acc', D.step op.name acc s = .ok acc'
+  | .pixelEach => ∀ s r, ∃ b, D.pix op.name s r = .ok b
+  | _ => True
+
+/-- **No mixed result**: whenever an operation returns, every operand's CRS compared equal to
+the first operand's.  No hypothesis on the delegate, the operand count or the walk. -/
+theorem no_mixed_result (op : OpSpec) (D : Delegate S R) (x0 : Obj S) (rest : List (Obj S))
+    (r : Out R) (h : run op D (x0 :: rest) = .ok r) : ∀ x ∈ rest, tagEq x0.crs x.crs = true := by
+  unfold run at h
+  by_cases har : op.arity = .two ∧ rest.length ≠ 1
+  · simp [har] at h
+  · simp only [har, if_false] at h
+    cases hw : op.walk with
+    | guardFirst rev =>
+      simp only [hw] at h
+      cases hg : guardAll rev op.mismatchErr x0.crs rest with
+      | error e => simp [hg] at h
+      | ok u => exact (guardAll_ok_iff rev op.mismatchErr x0.crs rest).mp hg
+    | reduce =>
+      simp only [hw] at h
+      cases hg : reduceGo D op.name op.mismatchErr x0.crs (D.init op.name x0.raw) rest with
+      | error e => simp [hg] at h
+      | ok acc => exact reduceGo_ok_allEq D _ _ _ rest _ acc hg
+    | foldCheckInside =>
+      simp only [hw] at h
+      cases hg : foldGo D op.name op.mismatchErr x0.crs (D.init op.name x0.raw) rest with
+      | error e => simp [hg] at h
+      | ok acc => exact foldGo_ok_allEq D _ _ _ rest _ acc hg
+    | pixelEach =>
+      simp only [hw] at h
+      cases hg : pixGo D op.name op.mismatchErr x0 (x0 :: rest) with
+      | error e => simp [hg] at h
+      | ok bs =>
+        have := pixGo_ok_allEq D _ _ x0 (x0 :: rest) bs hg
+        exact (allEq_cons.mp this).2
+
+/-- A mismatch anywhere (in particular exactly one operand without CRS) never yields a result. -/
+theorem mismatch_never_ok (op : OpSpec) (D : Delegate S R) (x0 : Obj S) (rest : List (Obj S))
+    (hmis : ∃ x ∈ rest, tagNe x0.crs x.crs = true) : ∃ e, run op D (x0 :: rest) = .error e := by
+  cases hr : run op D (x0 :: rest) with
+  | error e => exact ⟨e, rfl⟩
+  | ok r =>
+    obtain ⟨x, hx, hne⟩ := hmis
+    have := no_mixed_result op D x0 rest r hr x hx
+    simp [tagNe, this] at hne
+
+/-- **Mismatch raises**: with the right number of operands, a mismatch anywhere raises the
+operation's CRS error (`CRSMismatchError`, or the GeoBox family's `ValueError`), for operand
+lists of any length.  For the two interleaved walks the delegate must not fail first
+(`StepsTotal`; see `mismatch_raises_two` for the hypothesis-free binary case). -/
+theorem mismatch_raises (op : OpSpec) (D : Delegate S R) (x0 : Obj S) (rest : List (Obj S))
+    (har : op.arity = .two → rest.length = 1) (hD : StepsTotal D op)
+    (hmis : ∃ x ∈ rest, tagNe x0.crs x.crs = true) :
+    run op D (x0 :: rest) = .error (raisedErr op) := by
+  have hna : ¬ AllEq x0.crs rest := by
+    intro hall
+    obtain ⟨x, hx, hne⟩ := hmis
+    simp [tagNe, hall x hx] at hne
+  have har' : ¬ (op.arity = .two ∧ rest.length ≠ 1) := fun h => h.2 (har h.1)
+  unfold run
+  simp only [har', if_false]
+  unfold StepsTotal at hD
+  unfold raisedErr
+  cases hw : op.walk with
+  | guardFirst rev =>
+    dsimp only
+    rw [guardAll_err_of_not_allEq rev _ _ rest hna]
+  | reduce =>
+    simp only [hw] at hD
+    dsimp only
+    rw [reduceGo_mismatch D _ _ _ hD rest _ hna]
+  | foldCheckInside =>
+    dsimp only
+    rw [foldGo_mismatch D _ _ _ rest _ hna]
+  | pixelEach =>
+    simp only [hw] at hD
+    dsimp only
+    have : ¬ AllEq x0.crs (x0 :: rest) := fun h => hna (allEq_cons.mp h).2
+    rw [pixGo_mismatch D _ _ x0 hD (x0 :: rest) this]
+
+/-- Binary form (`a.op(b)`, `a | b`, …): no assumption on shapely; for the GeoBox `|`/`&` only
+that the reference's own pixel box can be computed. -/
+theorem mismatch_raises_two (op : OpSpec) (D : Delegate S R) (a b : Obj S)
+    (hpix : op.walk = .pixelEach → ∃ bx, D.pix op.name a.raw a.raw = .ok bx)
+    (hmis : tagNe a.crs b.crs = true) :
+    run op D [a, b] = .error (raisedErr op) := by
+  unfold run raisedErr
+  have hne' : tagNe b.crs a.crs = true := by rw [tagNe_symm]; exact hmis
+  cases hw : op.walk with
+  | guardFirst rev =>
+    cases rev <;> simp [guardAll, hmis, hne']
+  | reduce => simp [reduceGo, hmis]
+  | foldCheckInside => simp [foldGo, hmis]
+  | pixelEach =>
+    obtain ⟨bx, hb⟩ := hpix hw
+    have hself : tagNe a.crs a.crs = false := by simp [tagNe, tagEq_refl]
+    simp [pixGo, hself, hb, hne']
+
+/-- **Equal delegates**: when all CRSs compare equal (in whatever spelling) the result is
+exactly the un-guarded computation on the raw shapes, re-tagged with the first operand's CRS
+(or left untagged for predicates / ROIs), errors of the delegate included. -/
+theorem equal_delegates (op : OpSpec) (D : Delegate S R) (x0 : Obj S) (rest : List (Obj S))
+    (heq : ∀ x ∈ rest, tagEq x0.crs x.crs = true) :
+    run op D (x0 :: rest) = (rawRun op D (x0.raw :: rest.map (·.raw))).map (retag op x0.crs) := by
+  have hall : AllEq x0.crs rest := heq
+  unfold run rawRun
+  by_cases har : op.arity = .two ∧ rest.length ≠ 1
+  · simp [har]; rfl
+  · simp only [har, if_false, List.length_map]
+    cases hw : op.walk with
+    | guardFirst rev =>
+      dsimp only
+      rw [(guardAll_ok_iff rev _ _ rest).mpr hall]
+      cases D.call op.name (x0.raw :: List.map (fun x => x.raw) rest) <;> rfl
+    | reduce =>
+      dsimp only
+      rw [reduceGo_eq_raw D _ _ _ rest _ hall]
+      cases rawReduce D op.name (D.init op.name x0.raw) (List.map (fun x => x.raw) rest) <;> rfl
+    | foldCheckInside =>
+      dsimp only
+      rw [foldGo_eq_raw D _ _ _ rest _ hall]
+      rfl
+    | pixelEach =>
+      dsimp only
+      have h0 : AllEq x0.crs (x0 :: rest) := allEq_cons.mpr ⟨tagEq_refl _, hall⟩
+      rw [pixGo_eq_raw D _ _ x0 (x0 :: rest) h0]
+      simp only [List.map_cons]
+      cases rawPix D op.name x0.raw (x0.raw :: List.map (fun x => x.raw) rest) with
+      | error e => rfl
+      | ok bs =>
+        dsimp only
+        cases D.fin op.name x0.raw bs <;> rfl
+
+/-- no operands at all: nothing to mix; the model answers what the raw operation answers -/
+theorem equal_delegates_nil (op : OpSpec) (D : Delegate S R) :
+    run op D [] = (rawRun op D []).map (retag op none) := by
+  unfold run rawRun
+  cases op.arity with
+  | two => rfl
+  | many => cases op.onEmpty <;> rfl
+
+/-- the result carries the first operand's CRS, or no CRS at all when it is not a geo-object -/
+theorem result_tag (op : OpSpec) (D : Delegate S R) (x0 : Obj S) (rest : List (Obj S))
+    (t : Option Tag) (r : R) (h : run op D (x0 :: rest) = .ok (.val t r)) :
+    t = outTag op x0.crs := by
+  unfold run at h
+  by_cases har : op.arity = .two ∧ rest.length ≠ 1
+  · simp [har] at h
+  · simp only [har, if_false] at h
+    cases hw : op.walk with
+    | guardFirst rev =>
+      simp only [hw] at h
+      cases hg : guardAll rev op.mismatchErr x0.crs rest with
+      | error e => simp [hg] at h
+      | ok u =>
+        cases hc : D.call op.name (x0.raw :: List.map (fun x => x.raw) rest) with
+        | error e => simp [hg, hc] at h
+        | ok r' => simp [hg, hc] at h; exact h.1.symm
+    | reduce =>
+      simp only [hw] at h
+      cases hg : reduceGo D op.name op.mismatchErr x0.crs (D.init op.name x0.raw) rest with
+      | error e => simp [hg] at h
+      | ok acc => simp [hg] at h; exact h.1.symm
+    | foldCheckInside =>
+      simp only [hw] at h
+      cases hg : foldGo D op.name op.mismatchErr x0.crs (D.init op.name x0.raw) rest with
+      | error e => simp [hg] at h
+      | ok acc => simp [hg] at h; exact h.1.symm
+    | pixelEach =>
+      simp only [hw] at h
+      cases hg : pixGo D op.name op.mismatchErr x0 (x0 :: rest) with
+      | error e => simp [hg] at h
+      | ok bs =>
+        cases hf : D.fin op.name x0.raw bs with
+        | error e => simp [hg, hf] at h
+        | ok r' => simp [hg, hf] at h; exact h.1.symm
+
+/-! ### the stream folds: the error comes at the first differing element -/
+
+/-- `bbox_union` / `bbox_intersection` loop: whatever follows the first differing box is never
+looked at, and the (already updated) accumulator is discarded. -/
+theorem fold_first_mismatch (D : Delegate S R) (name : String) (e : Err) (t0 : Tag) (acc : R)
+    (pre post : List (Obj S)) (y : Obj S)
+    (_hpre : ∀ x ∈ pre, tagEq t0 x.crs = true) (hy : tagNe t0 y.crs = true) :
+    foldGo D name e t0 acc (pre ++ y :: post) = .error e := by
+  apply foldGo_mismatch
+  intro hall
+  have := hall y (by simp)
+  simp [tagNe, this] at hy
+
+/-! ### facts about the table the harness matches against the live modules -/
+
+theorem table_names_nodup : (opTable.map (·.name)).Nodup := by decide
+
+/-- every table entry raises a `ValueError` (CRSMismatchError or plain) on mismatch, also after
+the re-raise inside the bounding-box fold -/
+theorem table_mismatch_is_valueError :
+    ∀ op ∈ opTable, (raisedErr op).isValueError = true ∧ raisedErr op = op.mismatchErr := by decide
+
+/-- binary table entries are exactly those called with two operands -/
+theorem table_mismatch_raises (op : OpSpec) (_hop : op ∈ opTable) (D : Delegate S R) (x0 : Obj S)
+    (rest : List (Obj S)) (har : op.arity = .two → rest.length = 1) (hD : StepsTotal D op)
+    (hmis : ∃ x ∈ rest, tagNe x0.crs x.crs = true) :
+    ∃ e, run op D (x0 :: rest) = .error e ∧ e.isValueError = true := by
+  refine ⟨raisedErr op, mismatch_raises op D x0 rest har hD hmis, ?_⟩
+  exact (table_mismatch_is_valueError op _hop).1
+
+/-! ### bounding boxes with the real arithmetic -/
+
+theorem bboxUnion_mismatch (x0 : Obj BBox) (rest : List (Obj BBox))
+    (hmis : ∃ x ∈ rest, tagNe x0.crs x.crs = true) :
+    bboxUnion (x0 :: rest) = .error .crsMismatch :=
+  mismatch_raises bboxUnionSpec (bboxDelegate unionStep) x0 rest (by intro h; cases h) trivial hmis
+
+theorem bboxIntersection_mismatch (x0 : Obj BBox) (rest : List (Obj BBox))
+    (hmis : ∃ x ∈ rest, tagNe x0.crs x.crs = true) :
+    bboxIntersection (x0 :: rest) = .error .crsMismatch :=
+  mismatch_raises bboxInterSpec (bboxDelegate interStep) x0 rest (by intro h; cases h) trivial hmis
+
+theorem bboxUnion_equal (x0 : Obj BBox) (rest : List (Obj BBox))
+    (heq : ∀ x ∈ rest, tagEq x0.crs x.crs = true) :
+    bboxUnion (x0 :: rest) = .ok (.val (some x0.crs) ((rest.map (·.raw)).foldl unionStep x0.raw)) := by
+  unfold bboxUnion
+  rw [equal_delegates _ _ _ _ heq]
+  have : ∀ (ss : List BBox) (acc : BBox),
+      rawFold (bboxDelegate unionStep) "geom.bbox_union" acc ss = ss.foldl unionStep acc := by
+    intro ss; induction ss with
+    | nil => intro _; rfl
+    | cons s ss ih => intro acc; exact ih _
+  simp [rawRun, bboxUnionSpec, retag, outTag, Except.map]
+  exact this _ _
+
+theorem bboxIntersection_equal (x0 : Obj BBox) (rest : List (Obj BBox))
+    (heq : ∀ x ∈ rest, tagEq x0.crs x.crs = true) :
+    bboxIntersection (x0 :: rest)
+      = .ok (.val (some x0.crs) ((rest.map (·.raw)).foldl interStep x0.raw)) := by
+  unfold bboxIntersection
+  rw [equal_delegates _ _ _ _ heq]
+  have : ∀ (ss : List BBox) (acc : BBox),
+      rawFold (bboxDelegate interStep) "geom.bbox_intersection" acc ss = ss.foldl interStep acc := by
+    intro ss; induction ss with
+    | nil => intro _; rfl
+    | cons s ss ih => intro acc; exact ih _
+  simp [rawRun, bboxInterSpec, retag, outTag, Except.map]
+  exact this _ _
+
+/-! ### converting operations and equality tests -/
+
+/-- what a converting operation may do with the two CRSs -/
+def ConvSound (self other : Tag) (r : Except Err ConvOut) : Prop :=
+  ∀ o, r = .ok o →
+    (o.path = .same → tagEq self other = true) ∧
+    (o.path = .converted → self ≠ none ∧ other ≠ none ∧ tagEq self other = false) ∧
+    (o.path = .pixelPlane → other = none)
+
+theorem projectOp_sound (self g : Tag) : ConvSound self g (projectOp self g) := by
+  intro o h
+  cases g with
+  | none =>
+    simp only [projectOp, Except.ok.injEq] at h
+    subst h; simp
+  | some b =>
+    cases self with
+    | none => simp [projectOp] at h
+    | some a =>
+      simp only [projectOp] at h
+      by_cases hne : tagNe (some b) (some a) = true
+      · have hf : tagEq (some a) (some b) = false := by
+          rw [tagEq_symm]; exact (tagNe_true_iff _ _).mp hne
+        simp only [hne, if_true, Except.ok.injEq] at h
+        subst h; simp [hf]
+      · have hne' : tagNe (some b) (some a) = false := by simpa using hne
+        have ht : tagEq (some a) (some b) = true := by
+          rw [tagEq_symm]; exact (tagNe_false_iff _ _).mp hne'
+        simp only [hne', Bool.false_eq_true, if_false, Except.ok.injEq] at h
+        subst h; simp [ht]
+
+/-- operations that call `project` and only change the tag of the result -/
+theorem viaProject_sound (self other : Tag) (t : Option Tag) :
+    ConvSound self other (match projectOp self other with
+      | .error e => .error e
+      | .ok o => .ok ⟨o.path, t⟩) := by
+  intro o h
+  cases hp : projectOp self other with
+  | error e => simp [hp] at h
+  | ok o' =>
+    simp only [hp, Except.ok.injEq] at h
+    have := projectOp_sound self other o' hp
+    subst h
+    exact this
+
+theorem tilesOp_sound (isBBox : Bool) (self q : Tag) : ConvSound self q (tilesOp isBBox self q) := by
+  intro o h
+  unfold tilesOp at h
+  by_cases h0 : isBBox = true ∧ q = none
+  · simp only [h0, and_self, if_true, Except.ok.injEq] at h
+    subst h; simp [h0.2]
+  · rw [if_neg h0] at h
+    cases self with
+    | none =>
+      cases q with
+      | none => simp only [Except.ok.injEq] at h; subst h; simp [tagEq]
+      | some b => simp at h
+    | some a =>
+      dsimp only at h
+      by_cases hne : tagNe q (some a) = true
+      · rw [if_pos hne] at h
+        cases q with
+        | none => simp at h
+        | some b =>
+          have hf : tagEq (some a) (some b) = false := by
+            rw [tagEq_symm]; exact (tagNe_true_iff _ _).mp hne
+          simp only [Except.ok.injEq] at h
+          subst h; simp [hf]
+      · rw [if_neg hne] at h
+        have hne' : tagNe q (some a) = false := by simpa using hne
+        have ht : tagEq (some a) q = true := by
+          rw [tagEq_symm]; exact (tagNe_false_iff _ _).mp hne'
+        simp only [Except.ok.injEq] at h
+        subst h; simp [ht]
+
+theorem gridIntersectOp_sound (self src : Tag) : ConvSound self src (gridIntersectOp self src) := by
+  intro o h
+  unfold gridIntersectOp at h
+  by_cases he : tagEq src self = true
+  · rw [if_pos he] at h
+    simp only [Except.ok.injEq] at h
+    subst h; simp [tagEq_symm self src, he]
+  · rw [if_neg he] at h
+    have hf : tagEq self src = false := by
+      rw [tagEq_symm]; simpa using he
+    cases src <;> cases self <;> simp at h
+    subst h; simp [hf]
+
+/-- A converting operation that returns either found equal CRSs, or converted between two
+*known* CRSs, or read an operand **without** CRS as pixel-plane coordinates (documented);
+it never combines coordinates of two different known systems as they are. -/
+theorem conv_never_mixes (name : String) (isBBox : Bool) (self other : Tag)
+    (r : Except Err ConvOut) (h : convRun name isBBox self other = some r) :
+    ConvSound self other r := by
+  unfold convRun at h
+  split at h
+  · cases h; exact projectOp_sound self other
+  split at h
+  · cases h
+    unfold enclosingOp
+    cases other with
+    | none => intro o ho; simp at ho
+    | some b => exact viaProject_sound self (some b) _
+  split at h
+  · cases h
+    unfold cropOp
+    cases other with
+    | none => intro o ho; simp only [Except.ok.injEq] at ho; subst ho; simp
+    | some b => exact viaProject_sound self (some b) _
+  split at h
+  · cases h
+    unfold cropOp
+    cases other with
+    | none => intro o ho; simp only [Except.ok.injEq] at ho; subst ho; simp
+    | some b => exact viaProject_sound self (some b) _
+  split at h
+  · cases h
+    unfold rangeFromBBoxOp
+    cases other with
+    | none => intro o ho; simp only [Except.ok.injEq] at ho; subst ho; simp
+    | some b => exact viaProject_sound self (some b) _
+  split at h
+  · cases h; exact tilesOp_sound isBBox self other
+  split at h
+  · cases h; exact gridIntersectOp_sound self other
+  · simp at h
+
+/-- every name of the converting table is modelled -/
+theorem convTable_covered (isBBox : Bool) (self other : Tag) :
+    ∀ n ∈ convTable, (convRun n isBBox self other).isSome = true := by
+  intro n hn
+  simp only [convTable, List.mem_cons, List.not_mem_nil, or_false] at hn
+  rcases hn with rfl | rfl | rfl | rfl | rfl | rfl | rfl <;> simp [convRun]
+
+/-- equality tests answer `False` as soon as the CRSs differ -/
+theorem eq_mismatch_false (a b : Tag) (rawEq : Bool) (h : tagNe a b = true) :
+    eqRun a b rawEq = false := by
+  simp [eqRun, (tagNe_true_iff a b).mp h]
+
+/-! ### non-vacuity -/
+
+/-- EPSG:4326 by code vs. the same CRS from WKT (no resolved code, other object, other text) -/
+example : crsEq ⟨1, 4326, 1, 7⟩ ⟨2, 0, 2, 7⟩ = true ∧ WF ⟨1, 4326, 1, 7⟩ ⟨2, 0, 2, 7⟩ :=
+  ⟨by decide,
+   { obj := fun h => absurd h (by decide), str := fun h => absurd h (by decide),
+     epsg := fun _ h => absurd rfl h }⟩
+
+example : (findOp "geom.bbox_union").isSome = true := by decide
+
+/-- equal CRSs in two spellings: the union box, tagged with the first operand's CRS -/
+example : (match bboxUnion [⟨some ⟨1, 4326, 1, 7⟩, ⟨0, 0, 1, 1⟩⟩, ⟨some ⟨2, 0, 2, 7⟩, ⟨2, -1, 3, 4⟩⟩] with
+    | .ok (.val (some (some c)) b) => decide (c.objId = 1 ∧ b = ⟨0, -1, 3, 4⟩)
+    | _ => false) = true := by decide
+
+/-- a box without CRS in the middle of the stream: CRSMismatchError -/
+example : (match bboxUnion [⟨some ⟨1, 4326, 1, 7⟩, ⟨0, 0, 1, 1⟩⟩, ⟨none, ⟨2, -1, 3, 4⟩⟩,
+      ⟨some ⟨1, 4326, 1, 7⟩, ⟨0, 0, 9, 9⟩⟩] with
+    | .error .crsMismatch => true
+    | _ => false) = true := by decide
 
 end OdcGeo.C01
